@@ -74,6 +74,12 @@ impl PixelDataReader for JpegAdapter {
                 .with_whatever_context(|_| format!("JPEG decoding failure on frame {i}"))?;
 
             let decoded_len = decoded.len();
+            // the JPEG stream may describe a larger image
+            // than the image pixel attributes do
+            ensure_whatever!(
+                decoded_len <= dst.len() - dst_offset,
+                "JPEG frame {i} decoded to more data than expected from the image attributes"
+            );
             dst[dst_offset..(dst_offset + decoded_len)].copy_from_slice(&decoded);
             dst_offset += decoded_len;
 
@@ -225,6 +231,12 @@ impl PixelDataReader for JpegAdapter {
             .whatever_context("JPEG decoder failure")?;
 
         let decoded_len = decoded.len();
+        // the JPEG stream may describe a larger image
+        // than the image pixel attributes do
+        ensure_whatever!(
+            decoded_len <= dst.len() - dst_offset,
+            "JPEG frame decoded to more data than expected from the image attributes"
+        );
         dst[dst_offset..(dst_offset + decoded_len)].copy_from_slice(&decoded);
 
         Ok(())
